@@ -62,3 +62,9 @@ CONFIG["properties_files"] = CONFIG["properties_files"] + ["theories/Nfs40/Prope
 CONFIG["harnesses"] = CONFIG["harnesses"] + [dict(_n40["harness"], shared=True, coq_dirs=["theories/Nfs40"])]
 CONFIG["trusted_base"] = CONFIG.get("trusted_base", []) + (_n40["trusted_base"] if isinstance(_n40["trusted_base"], list) else [_n40["trusted_base"]])
 CONFIG["assumptions"] = CONFIG.get("assumptions", []) + (_n40["assumptions"] if isinstance(_n40["assumptions"], list) else [_n40["assumptions"]])
+
+# ---- merged by the coordinator: second proof pass of Nfs41 (docs/areas/Nfs41-proofs2.md)
+CONFIG["coq_targets"] = CONFIG["coq_targets"] + ['theories/Nfs41/Properties2C20.vo']
+CONFIG["properties_files"] = CONFIG["properties_files"] + ['theories/Nfs41/Properties2C20.v']
+CONFIG["required_theorems"] = CONFIG.get("required_theorems", []) + ['one_owner_one_object', 'lock_owner_object_stable', 'nfs_lock_tables_exclusive', 'lockcount_exact', 'lockcount_never_panics', 'no_panic', 'close_releases_exactly', 'remove_releases_exactly', 'expiry_releases_exactly', 'free_stateid_releases_nothing', 'locku_releases_exactly', 'locku_other_tables', 'shared_lock_owner_refutes']
+CONFIG["assumptions"] = CONFIG.get("assumptions", []) + ['the NFSv4.1 lockCount and no-panic theorems assume uint64 (offset, length) other than (2^64-1, 2^64-1) and no lock-owner holding lock state on one file through two open-owners (known finding C20:shared-lock-owner)']
